@@ -1,7 +1,8 @@
 (* Session/CliProofs.v — C22 for the model of Cli::run (Session/Cli.v). *)
 From Coq Require Import List Bool String.
 From NV Require Import Session.Resolver Session.ResolverProofs Session.Context
-     Session.ContextProofs Session.Cli.
+     Session.ContextProofs.
+From NV Require Import Session.Cli.
 Import ListNotations.
 
 Section CliProofs.
@@ -26,6 +27,8 @@ Section CliProofs.
   Variable prelude_code : Code.
   Variables msg_prelude msg_init stopped_repl : Out.
   Variables is_blank is_quit : Code -> bool.
+  Variable command : Code -> option (cmd Out).
+  Variable reset_ctx : Context.ctx M Code A B C.
 
   Notation ctx := (ctx M Code A B C).
   Notation outcome := (outcome M EA EB EC V P).
@@ -255,5 +258,76 @@ Section CliProofs.
     intros no_prelude no_init c init_file file exprs stdin H.
     unfold Cli.cli_full. cbn [inspect config_of_args]. rewrite H. reflexivity.
   Qed.
+
+  (* ------------------------------------------------------------------ *)
+  (* Phase 4: REPL commands *)
+  Notation repl_cmd := (repl_cmd M M_eqb Code S importer parse A B C T1 T2 EA EB EC V P
+                                 transform check run k fuel Out show_print show_value show_diag stopped_repl
+                                 is_blank command reset_ctx).
+  Notation without_failing_commands := (without_failing_commands Code Out is_blank command).
+
+  (* with no command other than quit/exit on stdin the richer REPL is the one of C22_args *)
+  Theorem repl_cmd_plain :
+    (forall l, is_quit l = true <-> command l = Some (CQuit Out)) ->
+    forall lines c out,
+      (forall l, In l lines -> command l = None \/ command l = Some (CQuit Out)) ->
+      repl_cmd c lines out [] = repl c lines out.
+  Proof.
+    intros Hq lines. induction lines as [|l rest IH]; intros c out Hl; [reflexivity|].
+    cbn [Cli.repl_cmd Cli.repl]. destruct (is_blank l); [apply IH; intros; apply Hl; now right|].
+    destruct (Hl l (or_introl eq_refl)) as [Hc|Hc]; rewrite Hc.
+    - assert (Hnq : is_quit l = false).
+      { destruct (is_quit l) eqn:E; [|reflexivity]. apply Hq in E. congruence. }
+      rewrite Hnq. destruct (interpret c l CSText) as [c1 [v pr|f pr]]; [|reflexivity].
+      apply IH. intros; apply Hl; now right.
+    - apply Hq in Hc. rewrite Hc. reflexivity.
+  Qed.
+
+  Theorem repl_cmd_exit_0_or_1 : forall lines c out err,
+      exit_status Out (repl_cmd c lines out err) = 0 \/ exit_status Out (repl_cmd c lines out err) = 1.
+  Proof.
+    induction lines as [|l rest IH]; intros c out err; cbn [Cli.repl_cmd]; [now left|].
+    destruct (is_blank l); [apply IH|].
+    destruct (command l) as [[| |o|d]|]; try apply IH; [now left|].
+    destruct (interpret c l CSText) as [c1 [v pr|f pr]]; [apply IH | now right].
+  Qed.
+
+  (* a failure is always reported on stderr; and stderr only ever grows *)
+  Theorem repl_cmd_failure_on_stderr : forall lines c out err,
+      exit_status Out (repl_cmd c lines out err) = 1 -> stderr Out (repl_cmd c lines out err) <> [].
+  Proof.
+    induction lines as [|l rest IH]; intros c out err; cbn [Cli.repl_cmd]; [discriminate|].
+    destruct (is_blank l); [apply IH|].
+    destruct (command l) as [[| |o|d]|]; try apply IH; [discriminate|].
+    destruct (interpret c l CSText) as [c1 [v pr|f pr]]; [apply IH|].
+    intros _. cbn. destruct err; discriminate.
+  Qed.
+
+  (* a command with wrong arguments changes neither the exit status nor stdout *)
+  Theorem failing_commands_do_not_matter : forall lines c out err,
+      exists err',
+        exit_status Out (repl_cmd c lines out err)
+        = exit_status Out (repl_cmd c (without_failing_commands lines) out err')
+        /\ stdout Out (repl_cmd c lines out err)
+           = stdout Out (repl_cmd c (without_failing_commands lines) out err').
+  Proof.
+    induction lines as [|l rest IH]; intros c out err; cbn [Cli.repl_cmd Cli.without_failing_commands].
+    - exists err. split; reflexivity.
+    - destruct (is_blank l) eqn:Eb.
+      + destruct (command l) as [[| |o|d]|]; cbn [Cli.repl_cmd]; rewrite ?Eb; apply IH.
+      + destruct (command l) as [[| |o|d]|] eqn:Ec; cbn [Cli.repl_cmd]; rewrite ?Eb, ?Ec.
+        * exists err. split; reflexivity.
+        * apply IH.
+        * apply IH.
+        * apply IH.
+        * destruct (interpret c l CSText) as [c1 [v pr|f pr]]; [apply IH|].
+          exists err. split; reflexivity.
+  Qed.
+
+  (* reset: the rest of the session runs on the re-initialised context *)
+  Theorem repl_cmd_reset : forall l rest c out err,
+      is_blank l = false -> command l = Some (CReset Out) ->
+      repl_cmd c (l :: rest) out err = repl_cmd reset_ctx rest out err.
+  Proof. intros l rest c out err Hb Hc. cbn [Cli.repl_cmd]. now rewrite Hb, Hc. Qed.
 
 End CliProofs.
